@@ -3,7 +3,7 @@ NEXT ANext
 CONSTANTS
   Templates <- QTemplates
   ResKinds <- SmallResKinds
-  SinkPats <- MCSinkPats
+  SinkPats <- QSinkPats
   StaticPrefixes <- MCStaticPrefixes
   Methods <- QMethods
   Paths <- QPaths
